@@ -43,8 +43,13 @@ RULES = {
     "applies a ValueInfoProto to it (the applying function assigns type and shape unconditionally, None when the proto has none), "
     "each pre-populated field is re-established afterwards when it came back None - otherwise the first round trip drops the "
     "initializer's entry and the second one re-creates it from the tensor: no fixed point",
+    "R10": "no state survives a deserialization (shared rule S11): a container that a deserialize function writes to through one "
+    "of its parameters (the stack of scope tables is pushed and popped) is created by the caller for that call - a `[]` display "
+    "or a local - and is never a module-level list/dict or a mutable parameter default: the pop is skipped when a proto is "
+    "rejected half-way, so with a shared stack the scopes of the rejected graph stay visible and the next proto's dangling names "
+    "resolve to values of another model",
 }
-FLOORS = {"R1": 45, "R2": 6, "R3": 5, "R4": 5, "R5": 2, "R6": 3, "R7": 2, "R8": 3, "R9": 2}
+FLOORS = {"R1": 45, "R2": 6, "R3": 5, "R4": 5, "R5": 2, "R6": 3, "R7": 2, "R8": 3, "R9": 2, "R10": 4}
 EXPLANATION = (
     "Effect summaries (file-system primitives through the resolved call graph) for the deserialization entry set and "
     "the cheap tensor accessors; a sub-term analysis of every recursive call edge of the deserializer; dominator "
@@ -366,6 +371,28 @@ def _resolve_alias(m, name):
     return m.functions.get(name)
 
 
+def _field_guards(m, f, data: str, fld: str, depth: int = 0, seen=None):
+    """`if <data>.<fld> …:` statements of f and of the module functions f hands <data> to (the writer may delegate the
+    type/shape part to a helper of its own)."""
+    seen = seen if seen is not None else set()
+    if f.key in seen or depth > 3:
+        return []
+    seen.add(f.key)
+    out = [x for x in own_nodes(f.node) if isinstance(x, ast.If) and any(
+        isinstance(y, ast.Attribute) and isinstance(y.value, ast.Name) and y.value.id == data and y.attr == fld for y in ast.walk(x.test))]
+    for c in calls_in(f):
+        g = _resolve_alias(m, dotted_of(c.func) or "")
+        if g is None or isinstance(g.node, ast.Lambda):
+            continue
+        for i, a in enumerate(c.args):
+            if isinstance(a, ast.Name) and a.id == data and i < len(g.params):
+                out += _field_guards(m, g, g.params[i], fld, depth + 1, seen)
+        for k in c.keywords:
+            if isinstance(k.value, ast.Name) and k.value.id == data and k.arg in g.params:
+                out += _field_guards(m, g, k.arg, fld, depth + 1, seen)
+    return out
+
+
 def rule_r6(ctx):
     m = ctx.repo.modules[SERDE]
     preds = _emission_predicates(ctx)
@@ -390,8 +417,7 @@ def rule_r6(ctx):
         for fld, t in sorted(fields.items()):
             n += 1
             # how the writer stores it
-            sites = [x for x in own_nodes(w.node) if isinstance(x, ast.If) and any(
-                isinstance(y, ast.Attribute) and isinstance(y.value, ast.Name) and y.value.id == data and y.attr == fld for y in ast.walk(x.test))]
+            sites = _field_guards(m, w, data, fld)
             bad = None
             if not sites:
                 bad = f"serialize_value_into never stores `{fld}`"
@@ -496,6 +522,24 @@ def rule_r9(ctx):
     ctx.require(n >= 2, f"only {n} pre-populated fields found that a value_info entry can overwrite")
 
 
+def rule_r10(ctx, ef):
+    from ..shared import shared_mutable_arguments
+
+    hits, n = shared_mutable_arguments(ctx.repo, ctx.typer, ef, [SERDE])
+    for f, c, arg, what, g in hits:
+        ctx.check("R10", f"{f.local}: {norm(c)[:70]} is given a container of its own", False, f, c,
+                  f"{g.local} writes to its parameter (it pushes and pops), and {f.local} hands it the {what}, which every call shares: what a "
+                  "rejected proto leaves behind (the pop is skipped when an exception passes) is seen by the next deserialization - its "
+                  "dangling names resolve to values of the earlier, rejected model",
+                  how="effect summary of the callee writes through the parameter; the argument is a container that outlives the call",
+                  construct=f"shared container {arg.id} passed to {g.local}")
+    ctx.ob("R10", f"{n} arguments of serde calls whose callee writes through the parameter: {n - len(hits)} are displays, locals or forwarded parameters", True,
+           how="S11: module-level containers and mutable defaults among the arguments of parameter-writing callees")
+    for _ in range(max(0, n - len(hits) - 1)):
+        ctx.counts["R10"] = ctx.counts.get("R10", 0) + 1
+    ctx.require(n >= 4, f"only {n} arguments of parameter-writing serde functions found")
+
+
 def run(ctx):
     rule_r9(ctx)
     rule_r8(ctx)
@@ -508,6 +552,7 @@ def run(ctx):
         ef = ctx._shared["effects"] = Effects(ctx.repo, ctx.typer, tier4=(ctx.tier == "thorough"))
     ef.compute()
     rule_r1(ctx, ef)
+    rule_r10(ctx, ef)
     rule_r2(ctx, ef)
     rule_r3(ctx)
     rule_r4(ctx)
